@@ -202,3 +202,196 @@ def programs(tier):
     # closure call: callee expression, then arguments
     add("callv", mk(f"c09_callv_{len(out)}", [Let("f", Lam([("x", INT32), ("y", INT32)], Bin("-", Var("x"), Var("y"))))], CallV(Var("f"), tick(1, Int(9)), tick(2, Int(4)))))
     return out
+
+
+# ======================================================================================================================
+# effect-tail: a call made only for its effect as the LAST expression (no `;`) of a while body, of an if / match arm or a
+# block that is itself such a tail, for every call form of the language.  The callee prints "t<i>" and adds i to a counter;
+# the meaning (GomlSem) runs it once per evaluation of the enclosing tail.
+# ======================================================================================================================
+CN = TAdt("Counter")
+
+# Not in the list, on purpose:
+#  * `x.tick(i)` with x of a concrete type or of type `dyn Tick`: not goml (typer: "Method tick not found"; the dot form of a trait
+#    method exists only under a `T: Tick` bound);
+#  * "closure-param" (the closure handed to `run` as an argument of type `(int32) -> unit`): genuine defect of goml that is already
+#    listed (C08-closure-value-where-func-type-expected: the argument is emitted as its closure_env struct where Go expects a func),
+#    so such a program never reaches the comparison.  _tail_call still knows the form; enable it when the defect is fixed.
+TAIL_FORMS = ["fn", "closure-local", "inh-method", "inh-ufcs", "concrete-ufcs", "bound-ufcs", "bound-method", "dyn"]
+
+
+def _tail_decls(p):
+    def body(recv):
+        cell = Field(recv, "cell")
+        return Block([println(Bin("+", Str("t"), show_int(Var("i"))))], Call("ref_set", cell, Bin("+", Call("ref_get", cell), Var("i"))))
+    p.struct("Counter", [("cell", TRef(INT32))])
+    p.trait("Tick", [("tick", [INT32], UNIT)])
+    p.impl("Tick", CN, [("tick", [("self", CN), ("i", INT32)], UNIT, body(Var("self")))])
+    # a second implementation so that dispatch has something to get wrong
+    p.impl("Tick", INT32, [("tick", [("self", INT32), ("i", INT32)], UNIT, Block([println(Str("wrong impl"))], Unit))])
+    p.impl(None, CN, [("bump", [("self", CN), ("i", INT32)], UNIT, body(Var("self")))])
+    p.fn("ftick", [("x", CN), ("i", INT32)], UNIT, body(Var("x")))
+
+
+def _tail_call(form, i):
+    """the effect call number i of the given form; `x` is the receiver / callee parameter of `run`"""
+    if form == "fn":
+        return Call("ftick", Var("x"), Int(i))
+    if form == "closure-local":
+        return CallV(Var("f"), Int(i))
+    if form == "closure-param":
+        return CallV(Var("x"), Int(i))
+    if form in ("inh-method", "inh-ufcs"):
+        c = Call("inherent#Counter#bump", Var("x"), Int(i)); c["form"] = "method" if form == "inh-method" else "ufcs"; return c
+    if form == "bound-method":
+        return TCall("Tick", "tick", Var("x"), Int(i), form="method")
+    return TCall("Tick", "tick", Var("x"), Int(i))             # concrete-ufcs / bound-ufcs / dyn
+
+
+def _tail_positions():
+    """name -> function(call) -> list of statements of `run(x, cell, b, k)`; call(i) makes a fresh effect call numbered i.
+    Every loop runs its body twice; `n` counts iterations."""
+    n_lt = lambda lim: Bin("<", Call("ref_get", Var("n")), Int(lim))
+    bump_n = Do(Call("ref_set", Var("n"), Bin("+", Call("ref_get", Var("n")), Int(1))))
+    def loop(tail, before=()):
+        return [Let("n", Call("ref", Int(0))), Stmt(While(n_lt(2), Block([bump_n] + list(before), tail)))]
+    U = lambda: Block([], Unit)
+    B = lambda e: Block([], e)
+    P = {}
+    P["while-tail"] = lambda call: loop(call(1))
+    P["while-tail:after-same-call-as-stmt"] = lambda call: loop(call(2), before=[Stmt(call(1))])
+    # the body is nothing but the call: the condition reads what the call changes
+    P["while-tail:whole-body"] = lambda call: [Do(Call("ref_set", Var("cell"), Int(0))),
+                                               Stmt(While(Bin("<", Call("ref_get", Var("cell")), Int(3)), B(call(1))))]
+    P["while-tail:if-both-arms"] = lambda call: loop(If(Var("b"), B(call(1)), B(call(2))))
+    P["while-tail:if-then-only"] = lambda call: loop(If(Var("b"), B(call(1)), U()))
+    P["while-tail:if-else-only"] = lambda call: loop(If(Var("b"), U(), B(call(2))))
+    P["while-tail:match-literal-arm"] = lambda call: loop(Match(Var("k"), [(PInt(0), call(1)), (PWild, Unit)]))
+    P["while-tail:match-default-arm"] = lambda call: loop(Match(Var("k"), [(PInt(0), Unit), (PWild, call(2))]))
+    P["while-tail:match-bool-arms"] = lambda call: loop(Match(Var("b"), [(PBool(True), call(1)), (PBool(False), call(2))]))
+    P["while-tail:block"] = lambda call: loop(Block([println(Str("blk"))], call(1)))
+    P["while-tail:if-in-match-arm"] = lambda call: loop(Match(Var("k"), [(PInt(0), If(Var("b"), B(call(1)), U())), (PWild, If(Var("b"), U(), B(call(2))))]))
+    P["while-tail:match-in-if-arm"] = lambda call: loop(If(Var("b"), B(Match(Var("k"), [(PInt(0), call(1)), (PWild, call(2))])), B(call(3))))
+    P["while-tail:inner-while-tail"] = lambda call: loop(While(Bin("<", Call("ref_get", Var("m")), Int(2)),
+                                                               Block([Do(Call("ref_set", Var("m"), Bin("+", Call("ref_get", Var("m")), Int(1))))], call(1))),
+                                                         before=[Let("m", Call("ref", Int(0)))])
+    # the same tails outside a loop: statement position of a function body
+    P["stmt:if-arms"] = lambda call: [Stmt(If(Var("b"), B(call(1)), B(call(2)))), Stmt(If(Var("b"), B(call(3)), U()))]
+    P["stmt:match-arms"] = lambda call: [Stmt(Match(Var("k"), [(PInt(0), call(1)), (PWild, call(2))]))]
+    P["stmt:block"] = lambda call: [Stmt(Block([println(Str("blk"))], call(1)))]
+    return P
+
+
+QUICK_TAIL_POSITIONS = ["while-tail", "while-tail:whole-body", "while-tail:if-else-only", "while-tail:match-default-arm", "while-tail:block",
+                        "while-tail:if-in-match-arm"]
+
+
+def effect_tail_programs(tier):
+    out = []
+    P = _tail_positions()
+    for form in TAIL_FORMS:
+        for pos, mk_stmts in P.items():
+            if tier == "quick" and pos not in QUICK_TAIL_POSITIONS:
+                continue
+            p = Program(("c09_tail_%s_%s" % (form, pos)).replace("-", "_").replace(":", "_"))
+            _tail_decls(p)
+            bound = form.startswith("bound")
+            xty = TParam("T") if bound else TDyn("Tick") if form == "dyn" else TFn([INT32], UNIT) if form == "closure-param" else CN
+            stmts = mk_stmts(lambda i: _tail_call(form, i))
+            if form == "closure-local":
+                stmts = [Let("f", Lam([("i", INT32)], Call("ftick", Var("x"), Var("i"))))] + stmts
+            p.fn("run", [("x", xty), ("cell", TRef(INT32)), ("b", BOOL), ("k", INT32)], UNIT, Block(stmts, Unit),
+                 gens=[("T", ["Tick"])] if bound else [])
+            arg = lambda: ToDyn("Tick", Var("c")) if form == "dyn" else Lam([("i", INT32)], Call("ftick", Var("c"), Var("i"))) if form == "closure-param" else Var("c")
+            ta = [CN] if bound else []
+            p.fn("main", [], UNIT, Block([
+                Let("c", Struct(CN, [("cell", Call("ref", Int(0)))]), ty=CN),
+                Do(Call("run", arg(), Field(Var("c"), "cell"), Bool(True), Int(0), targs=ta)),
+                println(show_int(Call("ref_get", Field(Var("c"), "cell")))),
+                Do(Call("run", arg(), Field(Var("c"), "cell"), Bool(False), Int(5), targs=ta)),
+                println(show_int(Call("ref_get", Field(Var("c"), "cell")))),
+            ], Unit))
+            out.append({"prog": p, "family": "c09-effect-tail", "ident": f"c09:effect-tail:{form}:{pos}"})
+    return out
+
+
+# ======================================================================================================================
+# literal-elim: a tuple / struct / array / constructor literal that is taken apart on the spot (projection, field read, index,
+# match, let pattern).  Every component is evaluated, left to right, exactly once - the selected one and the others -
+# whatever the shape of the component: the effect at its top node (depth 0), under one operator / conditional / literal
+# (depth 1), or under two (depth 2).
+# ======================================================================================================================
+S3 = TAdt("S3")
+E2 = TAdt("E2")
+
+
+def _shapes():
+    """name -> f(i, v): int32 expression of value v that prints t<i> once; `c` = true, `k` = 0 are in scope"""
+    Sh = {}
+    Sh["d0:call"] = lambda i, v: tick(i, Int(v))
+    Sh["d1:binary"] = lambda i, v: Bin("+", tick(i, Int(v)), Int(0))
+    Sh["d1:negation"] = lambda i, v: Un("-", tick(i, Int(-v)))
+    Sh["d1:if"] = lambda i, v: If(Var("c"), tick(i, Int(v)), Int(v))
+    Sh["d1:match"] = lambda i, v: Match(Var("k"), [(PInt(0), tick(i, Int(v))), (PWild, Int(v))])
+    Sh["d1:block"] = lambda i, v: Block([Do(tick(i, Int(0)))], Int(v))
+    Sh["d1:tuple-projection"] = lambda i, v: Proj(Tuple(tick(i, Int(v)), Int(0)), 0)
+    Sh["d1:struct-field"] = lambda i, v: Field(Struct(S3, [("a", Int(0)), ("b", tick(i, Int(v))), ("c", Int(0))]), "b")
+    Sh["d1:ctor-match"] = lambda i, v: Match(Ctor(E2, "K2", tick(i, Int(v)), Int(0)), [(PCtor("K2", PVar("p"), PWild), Var("p")), (PCtor("K0"), Int(0))])
+    Sh["d2:binary-binary"] = lambda i, v: Bin("*", Bin("+", tick(i, Int(v)), Int(0)), Int(1))
+    Sh["d2:if-binary"] = lambda i, v: If(Var("c"), Bin("+", tick(i, Int(v)), Int(0)), Int(v))
+    Sh["d2:binary-if"] = lambda i, v: Bin("+", If(Var("c"), tick(i, Int(v)), Int(v)), Int(0))
+    Sh["d2:tuple-binary"] = lambda i, v: Proj(Tuple(Int(0), Bin("+", tick(i, Int(v)), Int(0))), 1)
+    Sh["d2:if-if"] = lambda i, v: If(Var("c"), If(Var("c"), tick(i, Int(v)), Int(v)), Int(v))
+    return Sh
+
+
+def _elims():
+    """name -> (arity, f(components, sel) -> (stmts, int32 expression))"""
+    xs = ["x0", "x1", "x2"]
+    El = {}
+    El["tuple2-projection"] = (2, lambda es, s: ([], Proj(Tuple(*es), s)))
+    El["tuple3-projection"] = (3, lambda es, s: ([], Proj(Tuple(*es), s)))
+    # fields written in declared order (the other orders are the known finding C09-struct-literal-fields-in-declared-order)
+    El["struct-field"] = (3, lambda es, s: ([], Field(Struct(S3, list(zip("abc", es))), "abc"[s])))
+    El["array-index"] = (3, lambda es, s: ([], Call("array_get", Array(*es), Int(s))))
+    El["match-tuple"] = (2, lambda es, s: ([], Match(Tuple(*es), [(PTuple(PVar("x0"), PVar("x1")), Var(xs[s]))])))
+    El["match-struct"] = (3, lambda es, s: ([], Match(Struct(S3, list(zip("abc", es))), [(PStruct("S3", [(f, PVar(x)) for f, x in zip("abc", xs)]), Var(xs[s]))])))
+    El["match-ctor"] = (2, lambda es, s: ([], Match(Ctor(E2, "K2", *es), [(PCtor("K2", PVar("x0"), PVar("x1")), Var(xs[s])), (PCtor("K0"), Int(0))])))
+    El["let-tuple-pattern"] = (2, lambda es, s: ([Let(PTuple(*[PVar(x) if j == s else PWild for j, x in enumerate(xs[:2])]), Tuple(*es))], Var(xs[s])))
+    return El
+
+
+QUICK_SHAPES_ALL_ELIMS = ["d0:call", "d1:binary", "d2:if-binary"]
+QUICK_ELIMS_ALL_SHAPES = ["tuple2-projection"]
+
+
+def literal_elim_programs(tier):
+    out = []
+    Sh, El = _shapes(), _elims()
+    for en, (n, build) in El.items():
+        for sn, shape in Sh.items():
+            if tier == "quick" and not (en in QUICK_ELIMS_ALL_SHAPES or sn in QUICK_SHAPES_ALL_ELIMS):
+                continue
+            stmts = [Let("c", Bool(True)), Let("k", Int(0)), Let("v", Int(7))]
+            def use(es, s, how):
+                pre, e = build(es, s)
+                if how == "print":
+                    stmts.extend(pre + [println(show_int(e))])
+                elif how == "let":      # bound to a variable that is used later
+                    stmts.extend(pre + [Let("r", e), println(show_int(Bin("+", Var("r"), Int(100))))])
+                else:                     # value not used at all
+                    stmts.extend(pre + [Do(e), println(Str("discarded"))])
+            for s in range(n):
+                # every component has the effect; the selected one is number s
+                use([shape(j + 1, 10 * (j + 1)) for j in range(n)], s, "print")
+            for s in range(n):
+                # only the components that are NOT selected have it; the selected one is a variable / a literal
+                use([Var("v") if j == s else shape(j + 1, 10 * (j + 1)) for j in range(n)], s, "let")
+            for s in (0, n - 1):
+                # only the selected component has it
+                use([shape(j + 1, 10 * (j + 1)) if j == s else Int(j) for j in range(n)], s, "print")
+            use([shape(j + 1, 10 * (j + 1)) for j in range(n)], n - 1, "discard")
+            use([Var("v") if j == 0 else shape(j + 1, 10 * (j + 1)) for j in range(n)], 0, "discard")
+            p = mk(("c09_lit_%s_%s" % (en, sn)).replace("-", "_").replace(":", "_"), stmts)
+            out.append({"prog": p, "family": "c09-literal-elim", "ident": f"c09:literal-elim:{en}:{sn}"})
+    return out
